@@ -45,7 +45,7 @@ SYMBOLIC = ["witness strings (z3 string theory)", "spliced characters (selector 
 REALISED = ["characters that flow into `re` are realised one value at a time by CrossHair (hence the per-position alphabets)", "integers formatted into the command text"]
 STUBS = []
 ASSUMPTIONS = ["client bytes are decoded as latin-1 before parsing (as parse_cmd_from_msg does)", "rejecting a valid sentence with BAD is not a violation of the property as stated; accepting with a different reading is"]
-OUTSIDE = ["byte strings longer than skeleton + 3 symbolic characters", "search-key nesting deeper than 2", "the message text of APPEND (handed to the stdlib email parser)"]
+OUTSIDE = ["parser state left behind by commands outside the priming corpus (harness PRIMING, 70 commands)", "byte strings longer than skeleton + 3 symbolic characters", "search-key nesting deeper than 2", "the message text of APPEND (handed to the stdlib email parser)"]
 EXPLANATION = "C08: token regexes decided by z3 regex inclusion (unbounded length); hand-written combinators executed symbolically on command skeletons."
 
 
@@ -624,6 +624,243 @@ CASES.update({
 })
 
 
+# A per-user process parses thousands of commands with one imported parser module: what a command means must
+# not depend on what was parsed before.  Every case job is discharged twice, in a fresh worker and in a worker
+# whose parser has already been through this corpus (every command, every argument form the grammar has).
+PRIMING = [
+    "p NOOP", "p CAPABILITY", "p LOGOUT", "p ID NIL", 'p ID ("name" "x" "version" "1")', "p NAMESPACE", "p IDLE", "p CHECK", "p CLOSE", "p UNSELECT", "p EXPUNGE",
+    "p LOGIN user pass", 'p LOGIN "us er" "pa\\\"ss"', "p LOGIN {4}\r\nuser {4}\r\npass", "p AUTHENTICATE PLAIN", "p SELECT inbox", 'p EXAMINE "a b/c"', "p CREATE a/b", "p DELETE a/b",
+    "p RENAME a b", "p SUBSCRIBE a", "p UNSUBSCRIBE a", 'p LIST "" *', 'p LSUB "" %', 'p LIST (SUBSCRIBED RECURSIVEMATCH) "" (a b*) RETURN (CHILDREN STATUS (MESSAGES UNSEEN))',
+    "p STATUS inbox (MESSAGES RECENT UIDNEXT UIDVALIDITY UNSEEN)", 'p APPEND inbox (\\Seen kw) "01-Jan-2020 10:11:12 +0100" {3}\r\nabc', "p APPEND inbox {3+}\r\nabc",
+    "p FETCH 1 ALL", "p FETCH 1:* FAST", "p FETCH 1,2:3,* FULL", "p FETCH 1 (FLAGS UID INTERNALDATE RFC822 RFC822.SIZE RFC822.HEADER RFC822.TEXT ENVELOPE BODY BODYSTRUCTURE)",
+    "p FETCH 1 BODY[]", "p FETCH 1 BODY[HEADER]", "p FETCH 1 BODY[TEXT]<0.10>", "p FETCH 1 BODY.PEEK[1]", "p FETCH 1 BODY[1.2.MIME]", "p FETCH 1 BODY.PEEK[4.1.MIME]<2.3>", "p FETCH 1 BODY[2.HEADER]",
+    "p FETCH 1 BODY[1.2.TEXT]", "p FETCH 1 BODY[HEADER.FIELDS (a b)]", "p FETCH 1 BODY.PEEK[HEADER.FIELDS.NOT (a)]<0.5>", "p FETCH 1 BODY[1.HEADER.FIELDS (a)]", "p FETCH 1 BODY[MIME]", "p FETCH 1 BODY[1.]",
+    "p UID FETCH 1:5 (UID FLAGS)", "p STORE 1 FLAGS (\\Seen)", "p STORE 1:2 +FLAGS.SILENT (\\Deleted kw)", "p STORE * -FLAGS \\Flagged", "p UID STORE 3 flags.silent ()",
+    "p COPY 1:2 other", "p UID COPY 4,5 other", "p MOVE 1 other", "p UID MOVE 1:* other", "p UID EXPUNGE 1:3",
+    "p SEARCH ALL", "p SEARCH CHARSET UTF-8 TEXT x", 'p SEARCH OR (FROM a SUBJECT "b c") NOT (UID 1:* LARGER 5) BEFORE 1-Jan-2020', 'p SEARCH SENTSINCE "01-Feb-1999" HEADER x-y z KEYWORD kw UNKEYWORD kw SMALLER 9',
+    "p UID SEARCH 1:3,* ANSWERED DELETED DRAFT FLAGGED NEW OLD RECENT SEEN UNANSWERED UNDELETED UNDRAFT UNFLAGGED UNSEEN", "p SEARCH BODY {1}\r\nx CC a BCC b TO c ON 2-Mar-2001 SENTBEFORE 3-Apr-2002 SENTON 4-May-2003 SINCE 5-Jun-2004",
+    "p BOGUS", "p FETCH", "p SEARCH (", "p STORE 1 FLAGS (", 'p SELECT "unterminated', "p APPEND inbox {x}",
+]
+_PRIMED = [False]
+
+
+def setup(params):
+    if params.get("primed") and not _PRIMED[0]:
+        _PRIMED[0] = True
+        for text in PRIMING:
+            try:
+                _parse(text)
+            except Exception:  # what the corpus itself parses to is the subject of the case jobs, not of the priming
+                pass
+
+
+# ---------------------------------------------------------------------------
+# assumption check behind every single-command query: parse() is a function of the command text alone.
+# The symbolic jobs explore ONE command from a given process state; they speak for sessions of any length only
+# if no command leaves anything behind in the parser.  Decided concretely (differential, not by the solver):
+#   (a) every corpus text is parsed in a pristine forked child  -> baseline meaning
+#   (b) the mutable module state of asimap.parse/fetch/search (module-level and class-level lists, dicts, sets,
+#       function default arguments) is snapshotted, the whole corpus is parsed, the snapshot must be unchanged
+#   (c) every corpus text is parsed again after the whole corpus -> must equal its baseline meaning
+# A difference is minimised to a single earlier command where possible and replayed in a fresh process.
+_HIST_MODULES = ("asimap.parse", "asimap.fetch", "asimap.search", "asimap.constants")
+
+
+def _norm(v, depth=0):
+    import enum
+
+    if depth > 6:
+        return "..."
+    if isinstance(v, enum.Enum):
+        return f"{type(v).__name__}.{v.name}"
+    if isinstance(v, (str, bytes, int, float, bool, type(None))):
+        return repr(v)
+    if isinstance(v, dict):
+        return "{" + ",".join(sorted(f"{_norm(k, depth + 1)}:{_norm(x, depth + 1)}" for k, x in v.items())) + "}"
+    if isinstance(v, (set, frozenset)):
+        return "set(" + ",".join(sorted(_norm(x, depth + 1) for x in v)) + ")"
+    if isinstance(v, (list, tuple)):
+        return "[" + ",".join(_norm(x, depth + 1) for x in v) + "]"
+    d = getattr(v, "__dict__", None)
+    if isinstance(d, dict) and type(v).__module__.startswith("asimap"):
+        return type(v).__name__ + _norm({k: x for k, x in d.items() if not k.startswith("_") and k not in ("log", "logger")}, depth + 1)
+    if hasattr(v, "isoformat"):
+        return v.isoformat()
+    return type(v).__name__
+
+
+def _summary(text):
+    try:
+        cmd, st = _parse(text)
+    except Exception as e:
+        return "raised " + type(e).__name__
+    return st + " " + (_norm(cmd) if st == "ok" else "")
+
+
+def _forked(fn):
+    """Run fn() in a forked child of this (so far pristine) process and return its string result."""
+    import os
+
+    r, w = os.pipe()
+    pid = os.fork()
+    if pid == 0:
+        try:
+            os.close(r)
+            out = fn()
+            os.write(w, out.encode("utf-8", "backslashreplace")[:60000])
+        finally:
+            os._exit(0)
+    os.close(w)
+    chunks = []
+    while True:
+        b = os.read(r, 65536)
+        if not b:
+            break
+        chunks.append(b)
+    os.close(r)
+    os.waitpid(pid, 0)
+    return b"".join(chunks).decode("utf-8", "backslashreplace")
+
+
+def _module_state():
+    import importlib
+    import inspect
+
+    out = {}
+    for mn in _HIST_MODULES:
+        m = importlib.import_module(mn)
+        for k, v in vars(m).items():
+            if isinstance(v, (list, dict, set, bytearray)) and not k.startswith("__"):
+                out[f"{mn}.{k}"] = _norm(v)
+            elif inspect.isclass(v) and v.__module__ == mn:
+                for ck, cv in vars(v).items():
+                    if isinstance(cv, (list, dict, set, bytearray)) and not ck.startswith("__"):
+                        out[f"{mn}.{k}.{ck}"] = _norm(cv)
+                    f = cv.__func__ if isinstance(cv, (staticmethod, classmethod)) else cv
+                    if inspect.isfunction(f) and (f.__defaults__ or f.__kwdefaults__):
+                        out[f"{mn}.{k}.{ck}()defaults"] = _norm([list(f.__defaults__ or ()), dict(f.__kwdefaults__ or {})])
+            elif inspect.isfunction(v) and v.__module__ == mn and (v.__defaults__ or v.__kwdefaults__):
+                out[f"{mn}.{k}()defaults"] = _norm([list(v.__defaults__ or ()), dict(v.__kwdefaults__ or {})])
+    return out
+
+
+def _history_corpus():
+    texts = list(PRIMING)
+    for sec in SECTIONS:
+        for pre in ("BODY", "BODY.PEEK"):
+            texts.append(f"h FETCH 1 {pre}[{sec}]")
+    for form in SETFORMS:
+        texts.append("h FETCH " + form.format(a=1, b=3, c=2) + " FLAGS")
+    for sel, ret, pat in ((0, 0, 0), (2, 3, 3), (4, 4, 5), (8, 7, 1)):
+        texts.append("h LIST " + (LIST_SEL[sel] + " " if LIST_SEL[sel] else "") + LIST_PAT[pat] + LIST_RET[ret])
+    seen, out = set(), []
+    for t in texts:
+        if t not in seen:
+            seen.add(t)
+            out.append(t)
+    return out
+
+
+def _pristine_helper(texts):
+    """Fork a child that keeps the pristine parser and waits: given (t, baseline) it looks for ONE earlier command p
+    such that p ; t differs from the baseline (each candidate in a grandchild forked from the pristine state)."""
+    import json
+    import os
+
+    r1, w1 = os.pipe()
+    r2, w2 = os.pipe()
+    pid = os.fork()
+    if pid == 0:
+        try:
+            os.close(w1)
+            os.close(r2)
+            req = b""
+            while True:
+                b = os.read(r1, 65536)
+                if not b:
+                    break
+                req += b
+            ans = None
+            if req:
+                t, base = json.loads(req.decode())
+                for p in texts:
+                    if _forked(lambda p=p, t=t: (_summary(p), _summary(t))[1]) != base:
+                        ans = p
+                        break
+            os.write(w2, json.dumps(ans).encode())
+        finally:
+            os._exit(0)
+    os.close(r1)
+    os.close(w2)
+
+    def ask(t, base):
+        os.write(w1, json.dumps([t, base]).encode())
+        os.close(w1)
+        out = b""
+        while True:
+            b = os.read(r2, 65536)
+            if not b:
+                break
+            out += b
+        os.close(r2)
+        os.waitpid(pid, 0)
+        return json.loads(out.decode() or "null")
+
+    def dismiss():
+        os.close(w1)
+        os.close(r2)
+        os.waitpid(pid, 0)
+
+    return ask, dismiss
+
+
+def history(params):
+    import asimap.parse  # noqa: F401  (imported, nothing parsed yet: the children fork from a pristine parser)
+
+    texts = _history_corpus()
+    ask, dismiss = _pristine_helper(texts)
+    base = {t: _forked(lambda t=t: _summary(t)) for t in texts}
+    before = _module_state()
+    out = {"direct_queries": 0, "corpus": len(texts), "state_items_watched": len(before), "extra_queries": 0, "extra_solver_time": 0.0}
+    changed_by = None
+    for t in texts:
+        _summary(t)
+        now = _module_state()
+        if now != before and changed_by is None:
+            k = sorted(x for x in now if now.get(x) != before.get(x))[0]
+            changed_by = (t, k, before.get(k), now.get(k))
+    diffs = [(t, base[t], _summary(t)) for t in texts]
+    diffs = [d for d in diffs if d[1] != d[2]]
+    if diffs:
+        t, b, a = diffs[0]
+        one = ask(t, b)
+        wit = {"first": [one] if one is not None else texts, "then": t, "meaning_in_a_fresh_process": b[:400], "meaning_afterwards": a[:400], "reason": "C08/history/meaning_depends_on_earlier_commands"}
+        return dict(out, verdict="violation", reason=wit["reason"], witness=wit)
+    dismiss()
+    if changed_by is not None:
+        t, k, b, a = changed_by
+        wit = {"first": [t], "then": None, "state": k, "before": (b or "")[:300], "after": (a or "")[:300], "reason": "C08/history/parser_module_state_changed"}
+        return dict(out, verdict="violation", reason=wit["reason"], witness=wit)
+    return dict(out, verdict="held")
+
+
+def history_replay(params, wit):
+    import asimap.parse  # noqa: F401
+
+    if wit.get("then") is None:
+        before = _module_state()
+        for t in wit["first"]:
+            _summary(t)
+        now = _module_state()
+        return {"held": now == before, "reason": wit["reason"], "ctx": {"first": wit["first"], "changed": sorted(x for x in now if now.get(x) != before.get(x))}}
+    fresh = _forked(lambda: _summary(wit["then"]))
+    for t in wit["first"]:
+        _summary(t)
+    after = _summary(wit["then"])
+    return {"held": fresh == after, "reason": wit["reason"], "ctx": {"first": wit["first"][:3], "then": wit["then"], "fresh": fresh[:300], "after": after[:300]}}
+
+
+
 def _plan(tier):
     """(case, fixed) partitions.  quick: a slice of each space; thorough: the whole space."""
     P = []
@@ -647,13 +884,14 @@ def _plan(tier):
 
 def jobs(tier):
     T = 600 if tier == "quick" else 1800
-    js = [{"name": "tokens", "fn": "tokens", "kind": "py", "params": {}, "timeout": 120}]
+    js = [{"name": "tokens", "fn": "tokens", "kind": "py", "params": {}, "timeout": 120}, {"name": "history", "fn": "history", "kind": "py", "params": {}, "timeout": 300}]
     chunk = 150 if tier == "quick" else 400
     for name, fixed in _plan(tier):
         n = _space(name, fixed)
         for lo in range(0, n, chunk):
             tagf = ",".join(f"{k}={v}" for k, v in fixed.items())
             js.append({"name": f"{name}[{tagf}][{lo}]", "fn": "case", "params": {"case": name, "fixed": fixed, "lo": lo, "hi": min(n, lo + chunk)}, "timeout": T, "per_path": 60})
+            js.append({"name": f"{name}[{tagf}][{lo}]+primed", "fn": "case", "params": {"case": name, "fixed": fixed, "lo": lo, "hi": min(n, lo + chunk), "primed": True}, "timeout": T, "per_path": 60})
     return js
 
 
